@@ -81,7 +81,7 @@ theorem State.bump_zero (s : State) : s.bump 0 = s := by
 
 theorem kStateOf_calm (s : State) (pid : Nat) (h : s.k.Calm) :
     kStateOf pid s = ((match s.k.find pid with | some p => p.st | none => .gone), s.bump 1) := by
-  simp only [kStateOf, getK, setK, modS, bind, pure, Kernel.stateOf, Kernel.tick_calm _ h, Kernel.bump_find, State.bump]
+  simp only [kStateOf, runK, Kernel.stateOf, Kernel.tick_calm _ h, Kernel.bump_find, State.bump]
   rfl
 
 theorem procStatus_running (s : State) (pid : Nat) (p : KProc) (h : s.k.Calm)
